@@ -389,6 +389,15 @@ def cases_B_MO(info, ci, tier):
                 for ndwt in (1.0, -1.0):
                     out.append((n, f, sp, ndwt, ds[k % len(ds)], k % 3, ow))
                     k += 1
+    # constrained protocols: the reported front carries (unfiltered) violations — all feasible / all infeasible / every
+    # mixed pattern, so a violating member sits before and after the preferred one
+    for f in (((0, 3), (1, 1), (3, 0)), ((0, 2), (3, 1))):
+        for pat in itertools.product((0.0, 1.5), repeat=len(f)):
+            for kind in ("ineq", "eq", "both"):
+                for sp in (("default",), ("table", tuple(float((i * 2 + 1) % 3) for i in range(len(f))))):
+                    for ndwt in (1.0, -1.0):
+                        out.append((n, f, sp, ndwt, ds[k % len(ds)], k % 3, None, (kind, pat)))
+                        k += 1
     return out
 
 
@@ -1060,10 +1069,12 @@ def _dot_trans(mat, w=None, **kwargs):
     return numpy.asarray(mat, dtype=float).dot(numpy.asarray(w, dtype=float))
 
 
-def run_B_MO(ctx, info, n, front, spec, ndwt, design, vi, answers=None, seed=None, owt=None):
+def run_B_MO(ctx, info, n, front, spec, ndwt, design, vi, answers=None, seed=None, owt=None, cvspec=None):
     """spec: ('default',) | ('table', scores) | ('vec', vec_wt) default distance with a non-trivial preference vector |
     ('dot', w) weighted sum.  owt: the protocol's per-objective weights obj_wt (None = all +1).  The front is what the
-    optimiser's solution object reports (already weighted by evalfn), so the reference scores never depend on owt."""
+    optimiser's solution object reports (already weighted by evalfn), so the reference scores never depend on owt.
+    cvspec = (kind in ineq|eq|both, per-member violation tuple): the protocol declares constraints and the front's
+    members carry (unfiltered) violations; the documented rule still scores the whole reported front."""
     seed = ctx.seed if seed is None else seed
     fam = info["fam"]
     F = FAM[fam]
@@ -1079,7 +1090,8 @@ def run_B_MO(ctx, info, n, front, spec, ndwt, design, vi, answers=None, seed=Non
     nmnp = _nmnp(vi + c, c)
     P = f"{info['cls']}.select:"
     case = dict(part="B-MO", cls=info["cls"], mod=info["mod"], n=n, front=[list(r) for r in front], spec=[spec[0]] + [list(x) for x in spec[1:]],
-                ndwt=ndwt, design=list(design), variant=vi, seed=seed, tier=ctx.tier, owt=None if owt is None else list(owt))
+                ndwt=ndwt, design=list(design), variant=vi, seed=seed, tier=ctx.tier, owt=None if owt is None else list(owt),
+                cvspec=None if cvspec is None else [cvspec[0], list(cvspec[1])])
     objs = numpy.array(front, dtype=float)
     if spec[0] == "table":
         table = {tuple(float(v) for v in row): float(s) for row, s in zip(front, spec[1])}
@@ -1098,7 +1110,13 @@ def run_B_MO(ctx, info, n, front, spec, ndwt, design, vi, answers=None, seed=Non
     if fam == "RandomSelection":
         h.mvn = crit[pop.order, :].copy()
     g = R.make_rng(h, "RandomState")
-    mo = R.make_given_front(enc, objs)
+    mo = R.make_given_front(enc, objs, cv=None if cvspec is None else numpy.array(cvspec[1], dtype=float))
+    if cvspec is not None:
+        nd = dict(nd)
+        if cvspec[0] in ("ineq", "both"):
+            nd["nineqcv"] = 1
+        if cvspec[0] in ("eq", "both"):
+            nd["neqcv"] = 1
     misc = {}
     ctx.evaluations += 1
     ctx.transitions += 1
@@ -1124,7 +1142,7 @@ def run_B_MO(ctx, info, n, front, spec, ndwt, design, vi, answers=None, seed=Non
         P = _sel_prefix(proto)
         PC = f"{info['cls']}.select:"
         require("mosoln" in misc and misc["mosoln"].soln_decn.shape == mo.decns.shape and numpy.array_equal(misc["mosoln"].soln_decn, mo.decns)
-                and close(misc["mosoln"].soln_obj, objs), P + "mo-solution-not-handed-through", "miscout['mosoln'] is not the optimiser's non-dominated set")
+                and close(misc["mosoln"].soln_obj, objs) and close(misc["mosoln"].soln_ineqcv, mo.cv[0]) and close(misc["mosoln"].soln_eqcv, mo.cv[1]), P + "mo-solution-not-handed-through", "miscout['mosoln'] is not the optimiser's non-dominated set")
         got = numpy.asarray(cfg.xconfig_decn)
         js = [j for j in range(len(mo.decns)) if numpy.array_equal(mo.decns[j], got)]
         require(len(js) == 1, P + "mo-decision-not-from-front", lambda: f"xconfig_decn {got.tolist()} is not a member of the non-dominated set {mo.decns.tolist()}")
@@ -1147,13 +1165,21 @@ def run_B_MO(ctx, info, n, front, spec, ndwt, design, vi, answers=None, seed=Non
     ok = ctx.guard(chk, case=case, sig_prefix=P)
     ctx.flag(f"B-MO:{info['cls']}")
     ctx.flag(f"B-MO:spec:{spec[0]}")
+    if cvspec is not None:
+        ctx.count("B-MO:constrained-front-cases")
+        pat = cvspec[1]
+        bestj = max(range(len(scores)), key=lambda i: scores[i]) if not any(s != s for s in scores) else None
+        kindf = ("all-feasible" if not any(pat) else "all-infeasible" if all(pat) else
+                 "mixed-violator-before-best" if (bestj is not None and any(pat[:bestj])) else "mixed-violator-after-best")
+        ctx.flag(f"B-MO:cv:{kindf}:{'mate-' if mate else ''}{enc}")
+        ctx.flag(f"B-MO:cv-kind:{cvspec[0]}")
     if owt is not None:
         ctx.count("B-MO:per-objective-weight-cases")
         if min(owt) < 0 < max(owt):
             ctx.flag(f"B-MO:mixed-sign-obj_wt:{'mate-' if mate else ''}{enc}")
     ctx.flag(f"B-MO:ndwt:{'neg' if ndwt < 0 else 'pos'}")
-    ctx.nontriv(digest((info["cls"], n, front, spec, ndwt, design, vi, owt)))
-    ctx.state(digest((info["cls"], front, spec, ndwt, owt, design, cfg.xconfig_decn, cfg.xconfig)))
+    ctx.nontriv(digest((info["cls"], n, front, spec, ndwt, design, vi, owt, cvspec)))
+    ctx.state(digest((info["cls"], front, spec, ndwt, owt, cvspec, design, cfg.xconfig_decn, cfg.xconfig)))
     ctx.outcome(digest((info["enc"], "mo", cfg.xconfig_decn, cfg.xconfig)))
     if ok:
         ctx.traces += 1
@@ -1404,7 +1430,8 @@ def run_shard(spec, ctx):
         info = discover()[0][ci]
         for mcase in cases_B_MO(info, ci, ctx.tier):
             (n, f, sp, ndwt, design, vi), ow = mcase[:6], (mcase[6] if len(mcase) > 6 else None)
-            run_B_MO(ctx, info, n, f, sp, ndwt, design, vi, owt=ow)
+            cvs = mcase[7] if len(mcase) > 7 else None
+            run_B_MO(ctx, info, n, f, sp, ndwt, design, vi, owt=ow, cvspec=cvs)
 
 
 def finalize(ctx, tier, seed):
@@ -1433,6 +1460,9 @@ def finalize(ctx, tier, seed):
     assert ctx.counters.get("B-MO:choice-rule-judged", 0) > 1000 or broken
     for e_ in ("subset", "real", "integer", "binary", "mate-subset", "mate-real", "mate-integer", "mate-binary"):
         assert f"B-MO:mixed-sign-obj_wt:{e_}" in ctx.flags or broken, e_
+    for e_ in ("subset", "real", "integer", "binary", "mate-subset", "mate-real", "mate-integer", "mate-binary"):
+        for k_ in ("all-feasible", "all-infeasible", "mixed-violator-before-best", "mixed-violator-after-best"):
+            assert f"B-MO:cv:{k_}:{e_}" in ctx.flags or broken, (k_, e_)
     assert ctx.counters.get("H-B:histories", 0) > 2000 and ctx.counters.get("H-A:histories", 0) > 500
     for f in ("H-B:presel", "H-B:no-presel", "H-B:minimal", "H-B:full") + tuple(f"H-A:{k}" for k in CFG):
         assert f in ctx.flags, f
@@ -1465,4 +1495,5 @@ def replay(case, ctx):
             sp = case["spec"]
             spec = (sp[0],) + tuple(tuple(x) for x in sp[1:])
             run_B_MO(ctx, info, case["n"], tuple(tuple(r) for r in case["front"]), spec, case["ndwt"], tuple(case["design"]), case["variant"],
-                     seed=case.get("seed"), owt=None if case.get("owt") is None else tuple(case["owt"]))
+                     seed=case.get("seed"), owt=None if case.get("owt") is None else tuple(case["owt"]),
+                     cvspec=None if case.get("cvspec") is None else (case["cvspec"][0], tuple(case["cvspec"][1])))
